@@ -13,7 +13,7 @@ EXPLANATION = (
     "goes into the lifecycle call; no unbounded or second mailbox channel; the mailbox Sender is used only through send/blocking_send "
     "(no try_send, reserve, send_timeout), each consuming a message built in the same body; no spawned task or thread performs a send "
     "except the two blocking timeout helpers, whose caller waits for the helper's result on every path before returning; the loop "
-    "dequeues at one recv site and awaits each handler inline before the next select!; stop() is an in-band marker on the same sender.")
+    "dequeues at one recv site and awaits each handler inline before the next select!, and the blanket handler future runs the user's handler exactly once on every path (no skipped message); stop() is an in-band marker on the same sender.")
 
 
 def run(run):
@@ -31,5 +31,8 @@ def run(run):
         sr.no_async_detour(run, f, sp)
         sr.loop_handles_each_envelope_once(run, lc, rule="O2.4")
         sr.one_consumer(run, f, lc, rule="O2.4")
+        # "everything accepted before stop() is handled before on_stop": a dequeued envelope whose user handler is
+        # skipped on some path is accepted-but-never-handled, so the handler future must run Message::handle once on every path
+        sr.handle_message_impl(run, f, rule="O2.4")
         sr.stop_marker(run, f, sp, rule="O2.5")
         sr.stop_marker_ends_loop(run, lc, rule="O2.5")
